@@ -50,6 +50,12 @@ import (
 //   - h3: one HTTP/3 server per case on its own UDP socket (QUIC leaves no room
 //     for an ALPN tag), reached through dial_addr.
 //
+// The address matrix (genDoh18) writes the port out as exactly the scheme
+// default (443), as the default of another scheme or as a neighbour in a third
+// of the cases, for every host form, and draws half of its IPv6 literals with an
+// all-decimal last group (without their brackets such a text reads as
+// host:port): "with or without port" includes the port that equals the default.
+//
 // Oracles, all from the property statement:
 //   - "the TLS server name defaults to the URL host": a certificate valid for
 //     exactly the URL host must not be refused with a host-name mismatch; the
@@ -285,6 +291,32 @@ func (r *Run) genDoh18(h3 bool) addr18 {
 	}
 	if a.port > 65535 { // out-of-range ports are the business of the matrix above
 		a.port = 1 + a.port%65535
+	}
+	v6 := a.isIP && strings.Contains(a.hostBare, ":")
+	// IPv6 literals whose last group is all decimal digits: without their brackets such a text reads as host:port
+	// (and what is left of it may be another valid address); half of the IPv6 draws
+	if v6 && r.Rng.Intn(2) == 0 {
+		bracketed := a.host != a.hostBare
+		a.hostBare = []string{"fd00::53", "2001:db8::8:53", "2001:db8::443", "::53", "2001:db8:0:0:0:0:1:853", "fe80::1:443",
+			fmt.Sprintf("2001:db8::%d:%d", r.Rng.Intn(10000), r.Rng.Intn(10000)), fmt.Sprintf("fd%02x::%d", r.Rng.Intn(256), r.Rng.Intn(10000))}[r.Rng.Intn(8)]
+		a.host = a.hostBare
+		if bracketed {
+			a.host = "[" + a.hostBare + "]"
+		}
+	}
+	// the port written out: exactly the scheme default (443), the default of another scheme, or a neighbour of them - for
+	// every host form (a bare IPv6 literal gets its brackets for that: it cannot carry a port); a third of the draws
+	if r.Rng.Intn(3) == 0 {
+		if v6 {
+			a.host = "[" + a.hostBare + "]"
+		}
+		a.port = []int{443, 443, 443, 443, 53, 853, 80, 8443, 444, 442, 4430, 44}[r.Rng.Intn(12)]
+		if a.port == 443 {
+			r.Count("doh:default-port-written-out")
+			if v6 {
+				r.Count("doh:default-port-written-out:ipv6")
+			}
+		}
 	}
 	switch r.Rng.Intn(4) {
 	case 0:
